@@ -54,6 +54,10 @@ def gen_cases(tier, seed):
             cases.append({"kind": "dispatch", "mode": mode, "crystal": {"name": ["tric_ilv", "rocksalt", "tric3", "wurtzite", "perovskite"][int(rng.integers(5))],
                                                                            "order": ["asis", "interleave", "random"][int(rng.integers(3))], "order_seed": int(rng.integers(1000))},
                           "smat": smats[int(rng.integers(len(smats)))], "seed": int(rng.integers(10 ** 6)), "_cost": 3})
+    # WIEN2k: case.scf lists positions and forces of one atom per equivalent set only; phonopy reconstructs the forces on all atoms with the
+    # symmetry of the displaced supercell - whichever member of a set the output happens to list
+    for i in range(3 if tier == "quick" else 12):
+        cases.append({"kind": "wien2k_forces", "crystal": {"name": ["cscl", "rocksalt", "zincblende", "fluorite"][i % 4]}, "seed": int(rng.integers(10 ** 6)), "_cost": 30})
     cases.append({"kind": "units"})
     for i, cell in enumerate(["rocksalt", "zincblende", "tric2", "wurtzite"] if tier == "quick" else ["rocksalt", "zincblende", "tric2", "wurtzite", "cscl", "rutile", "perovskite", "tric3"]):
         cases.append({"kind": "endtoend", "crystal": {"name": cell}, "seed": int(rng.integers(10 ** 6)), "_cost": 10})
@@ -421,6 +425,65 @@ def run_case(c):
             obs["dispatch_nontriangular"] = obs.get("dispatch_nontriangular", 0) + int(not tri)
             return {"viol": viol, "nontrivial": bool(len(cell) >= 2), "key": "dp|%s|%s|%s|%s" % (mode, c["crystal"]["name"], c["crystal"]["order"], smat.tolist()), "obs": obs, "evals": len(got_cells),
                     "sample": {"kind": "dispatch", "interface": mode, "crystal": c["crystal"], "smat": smat.tolist(), "files": entries[:6]}}
+
+        if c["kind"] == "wien2k_forces":
+            import spglib
+            from phonopy import Phonopy
+            from phonopy.interface.calculator import get_calc_dataset_wien2k
+
+            cd = crystals.make(**c["crystal"])
+            unit = crystals.to_atoms(cd)
+            ph = Phonopy(unit, supercell_matrix=np.diag([2, 2, 2]) if len(unit) <= 2 else np.eye(3, dtype=int) * (2 if len(unit) <= 4 else 1), calculator="wien2k", log_level=0)
+            ph.generate_displacements(distance=0.02)
+            sc = ph.supercell
+            Ls = np.array(sc.cell)
+            fcm = models.pair_fc(Ls, sc.scaled_positions, sc.symbols, cutoff=4.6)
+            Fall = setup.harmonic_forces_type1(ph, fcm)
+            red = Ls / np.linalg.norm(Ls, axis=1)[:, None]
+            rngw = np.random.default_rng(c["seed"])
+            n_cmp = n_ref = 0
+            for idisp, fa in enumerate(ph.dataset["first_atoms"][:3]):
+                u = np.zeros((len(sc), 3))
+                u[fa["number"]] = fa["displacement"]
+                xs = (np.array(sc.positions) + u) @ np.linalg.inv(Ls)
+                ds = spglib.get_symmetry((Ls, xs, setup.numbers_of(sc.symbols)), symprec=1e-5)
+                if ds is None:
+                    continue
+                eq = np.array(ds["equivalent_atoms"] if isinstance(ds, dict) else ds.equivalent_atoms)
+                classes = [np.where(eq == r)[0] for r in np.unique(eq)]
+                for variant in ("first", "last", "random"):
+                    listed = [int(cl[0] if variant == "first" else (cl[-1] if variant == "last" else cl[rngw.integers(len(cl))])) for cl in classes]
+                    lines = []
+                    for n_, j in enumerate(listed):
+                        pos_ = np.array([float("%7.5f" % (v % 1.0)) % 1.0 for v in xs[j]])
+                        lines.append("%-30s" % (":POS%03d: ATOM %4d POSITION =" % (n_ + 1, -(n_ + 1))) + "%7.5f %7.5f %7.5f  MULTIPLICITY = 1" % tuple(pos_))
+                    for n_, j in enumerate(listed):
+                        comp = Fall[idisp][j] @ np.linalg.inv(red)
+                        lines.append("%-29s" % (":FGL%03d: %4d.ATOM" % (n_ + 1, n_ + 1)) + "%16.9f%16.9f%16.9f" % tuple(comp) + "   total forces")
+                    fn = os.path.join(tmp, "case-%d-%s.scf" % (idisp, variant))
+                    open(fn, "w").write("\n".join(lines) + "\n")
+                    import contextlib
+                    import io
+
+                    try:
+                        with contextlib.redirect_stdout(io.StringIO()):
+                            calc_ = get_calc_dataset_wien2k([fn], sc, {"natom": len(sc), "first_atoms": [fa]}, verbose=False)
+                    except Exception as e:
+                        bad("wien2k_forces_exception", "get_calc_dataset_wien2k raised %s: %s" % (type(e).__name__, str(e)[:160]), listed=variant)
+                        continue
+                    fs_ = calc_["forces"]
+                    if len(fs_) == 0:
+                        n_ref += 1  # refusing is allowed
+                        continue
+                    n_cmp += 1
+                    e_ = np.abs(np.array(fs_[0]) - Fall[idisp]).max()
+                    if e_ > 5e-8 * max(np.abs(Fall[idisp]).max(), 1e-12) + 5e-9:
+                        bad("forcesets_pairing", "WIEN2k: forces reconstructed from a case.scf that lists the %s member of each equivalent set differ from the forces of the model by %.3e (max |F| %.3e)" % (
+                            variant, e_, np.abs(Fall[idisp]).max()), listed=variant, interface="wien2k")
+            obs["wien2k_force_sets_compared"] = n_cmp
+            obs["wien2k_force_sets_refused"] = n_ref
+            return {"viol": viol, "nontrivial": bool(n_cmp), "key": "w2kf|%s" % c["crystal"]["name"], "obs": obs, "evals": n_cmp,
+                    "sample": {"kind": "wien2k_forces", "crystal": c["crystal"], "compared": n_cmp, "refused": n_ref}}
 
         if c["kind"] == "units":
             from phonopy import units as U
